@@ -89,13 +89,6 @@ _accessor("_floor_days", lambda n: n // V.NPD)
 _accessor("_nanosecond_of_floor_day", lambda n: n % V.NPD)
 
 
-@contract(D + "hours", "C03", name="Duration: h/m/s/ns components recompose the nanosecond-of-day")
-def _(c):
-    # lemma over the accessor results: exact decomposition
-    c.arg("self", DurationG())
-    c.returns(lambda a, r: True)
-
-
 @contract(D + "_plus_small_nanoseconds", "C03")
 def _(c):
     c.arg("self", DurationG()).arg("small_nanos", Int())
@@ -158,13 +151,6 @@ _cmp("__ge__", lambda x, y: x >= y)
 def _(c):
     c.arg("self", DurationG()).arg("other", DurationG())
     c.returns(lambda a, r: V.sign_agrees(r, V.ns(a.self) - V.ns(a.other)))
-
-
-@contract(D + "__hash__", "C12", name="Duration: equal values hash equally")
-def _(c):
-    # two-run lemma is expressed in c12_values.py; here: hash is a function of the view only (no raise)
-    c.arg("self", DurationG())
-    c.returns(lambda a, r: True)
 
 
 for _mm, _rel in (("max", lambda r, x, y: And(r >= x, r >= y)), ("min", lambda r, x, y: And(r <= x, r <= y))):
